@@ -166,13 +166,21 @@ def run(res, b, tier, seed):
         return
     strings = contents(rng, tier == "quick")
     cases = [gen_history(rng, strings, i) for i in range(400 if tier == "quick" else 6000)]
-    pipeline.run_pipe(b, cases, "as")
+    pipeline.run_pipe(b, cases, "asw")
     pipeline.model_full(b, cases)
+    pipeline.model_batch(b, cases)
     dis, fails = [], []
     for c in cases:
         impl = c.out.get("BASH", ("MISSING", ""))
         canon = "OK " + impl[1] if impl[0] == "OK" else impl[0]
         if c.meta.get("model_bash") != canon:
+            dis.append(c)
+        # the Batch script too (there is no cmd.exe and the cmd model has no files: the Batch side of this property is tied to the Lean
+        # rendering of the converter and its helper routines, a change there is reported without a failing input; round 9: C17-B)
+        bimpl = c.out.get("BATCH", ("MISSING", ""))
+        bcanon = "OK " + bimpl[1] if bimpl[0] == "OK" else bimpl[0]
+        if c.meta.get("model_batch") != bcanon and c not in dis:
+            c.meta["batch_disagrees"] = True
             dis.append(c)
         if impl[0] != "OK":
             fails.append((c, "not transpiled: " + impl[0], None))
@@ -216,6 +224,9 @@ def run(res, b, tier, seed):
     if not real and (dis or not pr["ok"]):
         if dis:
             c = dis[0]
-            res.violation("correspondence", dict(stage="script", src=c.meta["src"], model=c.meta.get("model_bash", "")[:2000], implementation=str(c.out.get("BASH"))[:2000]), no_input=True)
+            bd = c.meta.get("batch_disagrees")
+            res.violation("correspondence", dict(stage="batch script" if bd else "script", src=c.meta["src"],
+                                                 model=(c.meta.get("model_batch", "") if bd else c.meta.get("model_bash", ""))[:2000],
+                                                 implementation=str(c.out.get("BATCH" if bd else "BASH"))[:2000]), no_input=True)
         else:
             res.violation("theorem", dict(broken=pr["broken"], log=pr["log"][-3000:]), no_input=True)
